@@ -23,12 +23,35 @@ fn gf_mul(mut a: u8, mut b: u8) -> u8 {
     r
 }
 
+/// powers of 2 and discrete logarithms, derived once from the carry-less multiplication above
+fn tables() -> &'static ([u8; 510], [u8; 256]) {
+    static T: std::sync::OnceLock<([u8; 510], [u8; 256])> = std::sync::OnceLock::new();
+    T.get_or_init(|| {
+        let mut exp = [0u8; 510];
+        let mut log = [0u8; 256];
+        let mut r = 1u8;
+        for i in 0..510 {
+            exp[i] = r;
+            if i < 255 {
+                log[r as usize] = i as u8;
+            }
+            r = gf_mul(r, 2);
+        }
+        (exp, log)
+    })
+}
+
 fn gf_pow2(n: usize) -> u8 {
-    let mut r = 1u8;
-    for _ in 0..n {
-        r = gf_mul(r, 2);
+    tables().0[n % 255]
+}
+
+/// table-based product (same function as `gf_mul`, used where many products are needed)
+fn gf_mul_t(a: u8, b: u8) -> u8 {
+    if a == 0 || b == 0 {
+        return 0;
     }
-    r
+    let (exp, log) = tables();
+    exp[log[a as usize] as usize + log[b as usize] as usize]
 }
 
 fn gf_inv(a: u8) -> u8 {
@@ -81,6 +104,65 @@ fn word_with_syndromes(syn: &[u8]) -> Vec<u8> {
         }
     }
     (0..k).map(|d| m[d][k]).collect()
+}
+
+/// Linear complexity profile of a syndrome sequence (Berlekamp-Massey over GF(256), independent of the
+/// crate): the lengths L_1..L_n.  A leading Hankel minor H_v is non-singular exactly when v is a
+/// value of the profile, so a step from L to L' > L + 1 means that H_{L+1} .. H_{L'-1} are singular:
+/// the locator search has to take the "singular case" with jump width m = L' - L - 1.
+fn max_profile_jump(syn: &[u8]) -> usize {
+    let n = syn.len();
+    let mut c = vec![0u8; n + 1];
+    let mut b = vec![0u8; n + 1];
+    c[0] = 1;
+    b[0] = 1;
+    let (mut l, mut m, mut bb) = (0usize, 1usize, 1u8);
+    let mut max_jump = 0usize;
+    for i in 0..n {
+        let mut d = syn[i];
+        for j in 1..=l {
+            d ^= gf_mul_t(c[j], syn[i - j]);
+        }
+        if d == 0 {
+            m += 1;
+        } else if 2 * l <= i {
+            let t = c.clone();
+            let f = gf_mul_t(d, gf_inv(bb));
+            for j in 0..=n - m {
+                let v = gf_mul_t(f, b[j]);
+                c[j + m] ^= v;
+            }
+            let nl = i + 1 - l;
+            if l > 0 && nl > l { max_jump = max_jump.max(nl - l); }
+            l = nl;
+            b = t;
+            bb = d;
+            m = 1;
+        } else {
+            let f = gf_mul_t(d, gf_inv(bb));
+            for j in 0..=n - m {
+                let v = gf_mul_t(f, b[j]);
+                c[j + m] ^= v;
+            }
+            m += 1;
+        }
+    }
+    max_jump
+}
+
+/// syndromes S_j = e(2^{j+1}), j = 0..k-1, of an error pattern given as (position in the block, value),
+/// block length n (position 0 is the coefficient of X^{n-1})
+fn syndromes_of(errs: &[(usize, u8)], n: usize, k: usize) -> Vec<u8> {
+    (0..k)
+        .map(|j| {
+            let mut s = 0u8;
+            for (p, v) in errs {
+                let x = gf_pow2((n - 1 - p) * (j + 1) % 255);
+                s ^= gf_mul_t(*v, x);
+            }
+            s
+        })
+        .collect()
 }
 
 pub fn rsdec(si: usize, word: &[u8]) -> String {
@@ -256,6 +338,50 @@ pub fn gen(out: &mut dyn Write, which: &str, seed: u64, thorough: bool) {
             let errs: Vec<(usize, u8)> = used.into_iter().map(|p| (p, 1 + rng.below(255) as u8)).collect();
             emit_within(out, &mut hist, si, &zero, &errs, "small_exactly_t");
         }
+        // patterns within the radius whose syndromes make two or more consecutive leading Hankel minors
+        // singular (a step of 3 or more in the linear complexity profile, found by rejection sampling with an
+        // independent Berlekamp-Massey): the locator search has to jump by m >= 2, which needs the general
+        // form of the singular-case update (the triangular solve for gamma, the shifted sums of eq. (9))
+        {
+            let mut found = 0usize;
+            let mut tried = 0usize;
+            for &(si, tries) in &[(2usize, 120000usize), (3, 120000), (4, 100000), (5, 80000), (8, 60000), (9, 40000), (12, 30000), (15, 20000), (20, 12000), (21, 12000), (23, 12000), (38, 6000), (47, 4000)] {
+                let g = geom(si);
+                let t = g.k / 2;
+                if t < 4 {
+                    continue;
+                }
+                let zero = vec![0u8; g.total];
+                let mut hits = 0usize;
+                let tries = if thorough { tries * 6 } else { tries };
+                for _ in 0..tries {
+                    if hits >= (if thorough { 12 } else { 3 }) {
+                        break;
+                    }
+                    tried += 1;
+                    let b = rng.below(g.blocks);
+                    let idx = block_indices(&g, b);
+                    let n = idx.len();
+                    let w = if rng.chance(1, 3) { 4 + rng.below(t - 3) } else { t };
+                    let mut used = std::collections::BTreeSet::new();
+                    while used.len() < w {
+                        used.insert(rng.below(n));
+                    }
+                    let errs: Vec<(usize, u8)> = used.into_iter().map(|p| (p, 1 + rng.below(255) as u8)).collect();
+                    let syn = syndromes_of(&errs, n, g.k);
+                    if max_profile_jump(&syn) >= 3 {
+                        hits += 1;
+                        found += 1;
+                        let full: Vec<(usize, u8)> = errs.iter().map(|(p, v)| (idx[*p], *v)).collect();
+                        emit_within(out, &mut hist, si, &zero, &full, "long_singular_jump");
+                        let c = codeword(&mut rng, si, false);
+                        emit_within(out, &mut hist, si, &c, &full, "long_singular_jump");
+                    }
+                }
+            }
+            hist.insert("long_singular_jump_patterns_tried".into(), tried);
+            hist.insert("long_singular_jump_patterns_found".into(), found);
+        }
         // all double errors of 10x10 (thorough) / a sample (quick)
         let g = geom(0);
         let zero = vec![0u8; g.total];
@@ -374,6 +500,74 @@ pub fn gen(out: &mut dyn Write, which: &str, seed: u64, thorough: bool) {
                 wz[idx0[idx0.len() - 1 - d]] ^= *c;
             }
             emit_any(out, &mut hist, si, &wz, "crafted_syndromes");
+        }
+        // the syndromes of v < t genuine errors in which exactly ONE of the recurrences
+        //   S_{j+v} = a_{v-1} S_{j+v-1} + ... + a_0 S_j      (x^v + a_{v-1} x^{v-1} + ... + a_0 = prod (x - X_i))
+        // is violated: genuine up to index j0+v-1, S_{j0+v} off by a non-zero amount, and from there on continued
+        // by the recurrence itself. The locator of the v errors explains every window of v+1 syndromes but the one
+        // starting at j0; the locator search is responsible for j0 = v .. t-1, the malfunction test for
+        // j0 = t .. k-v-1. Whoever skips one window returns Ok with a word that is not a codeword.
+        {
+            let mut n_dev = 0usize;
+            for &si in &[1usize, 2, 3, 4, 5, 8, 9, 12, 24, 25, 38] {
+                let g = geom(si);
+                let (k, t) = (g.k, g.k / 2);
+                if t < 2 {
+                    continue;
+                }
+                let reps = if thorough { 600 } else { 90 };
+                for r in 0..reps {
+                    let b = rng.below(g.blocks);
+                    let idx = block_indices(&g, b);
+                    let n = idx.len();
+                    let v = if r % 3 == 0 { 1 } else { 1 + rng.below(t - 1) };
+                    if k < 2 * v + 1 {
+                        continue;
+                    }
+                    let mut used = std::collections::BTreeSet::new();
+                    while used.len() < v {
+                        used.insert(rng.below(n));
+                    }
+                    let errs: Vec<(usize, u8)> = used.into_iter().map(|p| (p, 1 + rng.below(255) as u8)).collect();
+                    // characteristic polynomial prod (x + X_i), a[d] = coefficient of x^d, a[v] = 1
+                    let mut a = vec![1u8];
+                    for (p, _) in &errs {
+                        let x = gf_pow2(n - 1 - p);
+                        let mut next = vec![0u8; a.len() + 1];
+                        for (d, c) in a.iter().enumerate() {
+                            next[d + 1] ^= *c;
+                            next[d] ^= gf_mul_t(*c, x);
+                        }
+                        a = next;
+                    }
+                    let mut syn = syndromes_of(&errs, n, k);
+                    // window start j0 in v .. k-v-1
+                    let j0 = match r % 6 {
+                        0 => t - 1,
+                        1 => t,
+                        2 => k - v - 1,
+                        3 => v,
+                        _ => v + rng.below(k - 2 * v),
+                    }
+                    .clamp(v.min(k - v - 1), k - v - 1);
+                    let delta = 1 + rng.below(255) as u8;
+                    for j in j0..k - v {
+                        let mut rec = 0u8;
+                        for i in 0..v {
+                            rec ^= gf_mul_t(a[i], syn[j + i]);
+                        }
+                        syn[j + v] = if j == j0 { rec ^ delta } else { rec };
+                    }
+                    let p = word_with_syndromes(&syn);
+                    let mut wz = if r % 2 == 0 { vec![0u8; g.total] } else { codeword(&mut rng, si, false) };
+                    for (d, c) in p.iter().enumerate() {
+                        wz[idx[n - 1 - d]] ^= *c;
+                    }
+                    n_dev += 1;
+                    emit_any(out, &mut hist, si, &wz, "one_recurrence_off");
+                }
+            }
+            hist.insert("one_recurrence_off_words".into(), n_dev);
         }
         // error patterns with locations outside the (shortened) block: a word whose syndromes are those of
         // v <= t errors at exponents i_1..i_v of which at least one is >= n (the block length). The locator
